@@ -102,6 +102,17 @@ CLASSES = {
     'References': (Fields('pmutt.empirical.references:References', offset=DictOf({'H': R, 'O': R}), T_ref=Const(298.15),
                           descriptor=Const('elements'), references=Const(None)),
                    ['offset', 'T_ref', 'descriptor']),
+    'omkm.BEP': (New('pmutt.omkm.reaction:BEP', slope=Real(0., 1.), intercept=Real(0., 60.), name=Const('bep'), descriptor=Const('delta_H'),
+                     elements=Const({'H': 2}), notes=Const('n'), direction=Const('cleavage')),
+                 ['slope', 'intercept', 'name', 'descriptor', 'elements', 'notes', 'direction']),
+    'References+species(offset-edited-after-the-fit)': (
+        New('pmutt.empirical.references:References',
+            references=ListOf([New('pmutt.empirical.references:Reference', name=Const('H2'), elements=Const({'H': 2}), T_ref=Const(298.15),
+                                   HoRT_ref=R, phase=Const('G'),
+                                   model=New('pmutt.statmech:StatMech', name=Const('H2'),
+                                             elec_model=New('pmutt.statmech.elec:GroundStateElec', potentialenergy=Real(-20., -1.), spin=Const(0.))))]),
+            descriptor=Const('elements'), _post=dict(offset=DictOf({'H': R}), T_ref=Real(250., 350.))),
+        ['offset', 'T_ref', 'descriptor']),
     'SurfaceReaction': (reaction('pmutt.omkm.reaction:SurfaceReaction', id=Const('r_0001'), is_adsorption=Const(False), beta=Real(0., 2.),
                                  direction=Const('synthesis'), use_motz_wise=Const(True)),
                         ['reactants', 'products', 'id', 'beta', 'is_adsorption', 'direction', 'use_motz_wise']),
